@@ -68,6 +68,122 @@ def do_mmdecode(req):
         return {'out': 'raise:' + type(e).__name__ + ':' + str(e)[:80], 'labels': [], 'steps': []}
 
 
+def term_json(t):
+    from proof_generation.metamath.ast import Application, Metavariable
+    if isinstance(t, Metavariable):
+        return {'m': t.name}
+    return {'s': t.symbol, 'a': [term_json(x) for x in t.subterms]}
+
+
+def stmt_json(st):
+    from proof_generation.metamath import ast as A
+    if isinstance(st, A.ConstantStatement):
+        return {'k': 'c', 'syms': list(st.constants)}
+    if isinstance(st, A.VariableStatement):
+        return {'k': 'v', 'vars': [m.name for m in st.metavariables]}
+    if isinstance(st, A.DisjointStatement):
+        return {'k': 'd', 'vars': [m.name for m in st.metavariables]}
+    if isinstance(st, A.FloatingStatement):
+        return {'k': 'f', 'label': st.label, 'tc': st.terms[0].symbol, 'var': st.terms[1].name}
+    if isinstance(st, A.EssentialStatement):
+        return {'k': 'e', 'label': st.label, 'terms': [term_json(t) for t in st.terms]}
+    if isinstance(st, A.AxiomaticStatement):
+        return {'k': 'a', 'label': st.label, 'terms': [term_json(t) for t in st.terms]}
+    if isinstance(st, A.ProvableStatement):
+        toks = (st.proof or '?').split()
+        listed, lets = [], []
+        if toks and toks[0] == '(' and ')' in toks:
+            j = toks.index(')')
+            listed = toks[1:j]
+            lets = [ord(c) - 64 for w in toks[j + 1:] for c in w]
+        return {'k': 'p', 'label': st.label, 'terms': [term_json(t) for t in st.terms], 'listed': listed, 'letters': lets, 'ptoks': toks}
+    if isinstance(st, A.Block):
+        return {'k': 'b', 'stmts': [stmt_json(x) for x in st.statements]}
+    return {'k': '?', 'repr': repr(st)[:80]}
+
+
+def db_json(db):
+    return [stmt_json(s) for s in db.statements]
+
+
+def do_mmdb(req):
+    """parse -> print -> parse; slices for every lemma"""
+    from proof_generation.metamath.ast import Encoder
+    from proof_generation.metamath import metamath_extract_slice as S
+    out = {'out': 'ok'}
+    try:
+        db = parse_database(req['text'])
+        out['ast'] = db_json(db)
+        text2 = Encoder.encode_string(db)
+        out['printed'] = text2.split()
+        out['ast2'] = db_json(parse_database(text2))
+        out['slices'] = []
+        if req.get('slice', True):
+            labels = set(req['lemmas'])
+            deps = S.syntax_dependencies(db)
+            for label, sl in S.slice_database(db, deps, include=labels, exclude=set()):
+                st = Encoder.encode_string(sl)
+                try:
+                    re_ast = db_json(parse_database(st))
+                except Exception as e:   # noqa
+                    re_ast = [{'k': '?', 'repr': 'reparse failed: ' + type(e).__name__}]
+                out['slices'].append({'label': label, 'ast': db_json(sl), 'printed': st.split(), 'ast2': re_ast})
+    except Exception as e:   # noqa
+        out['out'] = 'raise:' + type(e).__name__ + ':' + str(e)[:100]
+    return out
+
+
+def do_mmtr(req):
+    """translate one target: the real translate.main (files) and a traced run of the same skeleton"""
+    import tempfile, io, contextlib
+    from pathlib import Path
+    from proof_generation.metamath import translate as T
+    sys.path.insert(0, os.path.dirname(__file__))
+    out = {'out': 'ok', 'files': [[], [], []]}
+    with tempfile.TemporaryDirectory() as d:
+        src = Path(d) / 'db.mm'
+        src.write_text(req['text'])
+        argv = sys.argv
+        try:
+            sys.argv = ['translate', str(src), str(Path(d) / 'out'), req['target']]
+            with contextlib.redirect_stdout(io.StringIO()):
+                T.main()
+            out['files'] = [list((Path(d) / 'out' / f'db.ml-{ph}').read_bytes()) for ph in ('gamma', 'claim', 'proof')]
+        except BaseException as e:   # noqa
+            out['out'] = 'raise:' + type(e).__name__ + ':' + str(e)[:120]
+        finally:
+            sys.argv = argv
+    if out['out'] == 'ok' and req.get('trace'):
+        import modules
+        from bridge import Bridge
+        from proof_generation.metamath.converter.representation import AxiomWithAntecedents
+        from proof_generation.proof import ProofExp
+        from proof_generation.interpreter import ExecutionPhase
+        db = parse_database(req['text'])
+        converter = MetamathConverter(db)
+        axs = []
+        for name in converter.exported_axioms:
+            ax = converter.get_axiom_by_name(name)
+            axs.append(T.convert_to_implication(ax.antecedents, ax.pattern) if isinstance(ax, AxiomWithAntecedents) else ax.pattern)
+        cls = [converter.get_lemma_by_name(n).pattern for n in converter.lemmas]
+
+        class Skel(ProofExp):
+            def __init__(self):
+                super().__init__(axioms=axs, claims=cls)
+
+            def execute_proofs_phase(self, interpreter):
+                assert interpreter.phase == ExecutionPhase.Proof
+                T.exec_proof(converter, req['target'], self, interpreter)
+        B = Bridge()
+        try:
+            out['trace'] = modules.trace_module(Skel(), True, B)
+            out['exported_axioms'] = list(converter.exported_axioms)
+            out['lemmas'] = list(converter.lemmas)
+        except BaseException as e:   # noqa
+            out['trace_error'] = type(e).__name__ + ':' + str(e)[:120]
+    return out
+
+
 def main():
     for line in sys.stdin:
         line = line.strip()
